@@ -6,23 +6,12 @@
    ocsp_accept.ndjson     {"sc":scenario,"kt":..,"resp":abstract response,"verdict":..}
                                                               clause (3), every signer x
                                                               embedded certificate x verifier
-   ocsp_fault.ndjson      {"sc":..,"kt":..,"fault":{kind[,cert]},"verdict":..}
+   ocsp_fault.ndjson      {"sc":..,"kt":..,"fault":{kind,cert},"t":..,"want":..,"verdict":..}
                                                               clause (3), tampering
    ocsp_request.ndjson    {"hopt":..,"kt":..,"serial":..,"want":ExpectedRequest}   clause (2)
-   ocsp_forcert.ndjson    {"singles":[{serial,mark}],"q":serial,"idx":n}           clause (4)
+   ocsp_forcert.ndjson    {"singles":[{serial,mark}],"q":serial,"idx":n,"kt":..}   clause (4)
 
-   Scenario == [signer |-> key role, responder |-> certificate id passed as responderCert,
-                embedded |-> certificate id or "none", verifier |-> certificate id of the
-                issuer handed to ParseResponse].
-   Key roles: KI issuer, KO another CA, KR delegated responder, KX a stranger.
-   Certificates (subject, key, issuer name, signing key):
-     I  (I,KI,I,KI)  O (O,KO,O,KO)   the two CAs (self-signed)
-     R  (R,KR,I,KI)  delegated responder, properly issued
-     R2 (R,KR,I,KI)  a second certificate for the same responder key
-     Ro (R,KR,O,KO)  responder certified by the other CA
-     Rf (R,KR,I,KO)  names the issuer but is signed by the other CA's key
-     Rs (R,KR,R,KR)  self-signed responder
-     Rx (X,KX,I,KI)  properly issued certificate of a stranger *)
+   Scenarios, certificates and key roles: see OCSP.tla, "scenario world". *)
 EXTENDS OCSP, TLC, Json, SequencesExt, FiniteSetsExt
 
 CONSTANTS Deep      \* FALSE: quick product, TRUE: thorough product
@@ -31,36 +20,6 @@ Rep(b, n) == [i \in 1..n |-> b]
 
 KeyTypePairs == IF Deep THEN {<<a, b>> : a \in {"P", "Q", "R"}, b \in {"P", "Q", "R"}}
                         ELSE {<<"P", "P">>, <<"R", "R">>, <<"Q", "P">>, <<"P", "R">>}
-
-----------------------------------------------------------------------------
-(* certificates and responses of the ideal model *)
-CertSpec == [I  |-> <<"I", "KI", "I", "KI">>, O  |-> <<"O", "KO", "O", "KO">>,
-             R  |-> <<"R", "KR", "I", "KI">>, R2 |-> <<"R", "KR", "I", "KI">>,
-             Ro |-> <<"R", "KR", "O", "KO">>, Rf |-> <<"R", "KR", "I", "KO">>,
-             Rs |-> <<"R", "KR", "R", "KR">>, Rx |-> <<"X", "KX", "I", "KI">>]
-CertIds == {"I", "O", "R", "R2", "Ro", "Rf", "Rs", "Rx"}
-
-AlgOf(key) == "alg-" \o key        \* the algorithm a key signs with (one per key here)
-
-CertOf(id) ==
-  LET s == CertSpec[id]
-      tbs == [subj |-> s[1], key |-> s[2], id |-> id] IN
-  [tbs |-> tbs, alg |-> AlgOf(s[4]), sig |-> Sig(s[4], AlgOf(s[4]), tbs)]
-
-Resp(sc) ==
-  [tbs |-> "m", alg |-> AlgOf(sc.signer), sig |-> Sig(sc.signer, AlgOf(sc.signer), "m"),
-   certs |-> IF sc.embedded = "none" THEN <<>> ELSE <<CertOf(sc.embedded)>>, malformed |-> FALSE]
-
-KeyOfCert(id) == CertSpec[id][2]
-
-Scenarios ==
-  {[signer |-> k, embedded |-> e, responder |-> IF e = "none" THEN "I" ELSE e, verifier |-> v] :
-     k \in {"KI", "KR", "KX"}, e \in {"none", "R", "Ro", "Rf", "Rs", "Rx"}, v \in {"I", "O"}}
-
-ScVerdict(sc) == Verdict(Resp(sc), KeyOfCert(sc.verifier))
-
-Direct1   == [signer |-> "KI", embedded |-> "none", responder |-> "I", verifier |-> "I"]
-Delegated == [signer |-> "KR", embedded |-> "R",    responder |-> "R", verifier |-> "I"]
 
 \* sanity of the A layer, checked by TLC: the two proper ways of responding are accepted,
 \* no scenario verified by the other CA is accepted unless that CA's key signed the embedded
@@ -77,7 +36,7 @@ AcceptCases ==
 Serials == IF Deep THEN {<<1>>, <<0, 128>>, <<255>>, <<1>> \o Rep(0, 7) \o <<1>>, <<127>> \o Rep(255, 19)}
                    ELSE {<<1>>, <<0, 128>>, <<1>> \o Rep(0, 7) \o <<1>>}
 Reasons == IF Deep THEN {0, 1, 2, 3, 4, 5, 6, 8, 9, 10} ELSE {0, 1, 6, 10}
-Hashes  == IF Deep THEN {"default", "sha1", "sha256", "sha384", "sha512"} ELSE {"default", "sha256", "sha512"}
+Hashes  == {"default", "sha1", "sha256", "sha384", "sha512"}
 X(oid, val) == [oid |-> oid, crit |-> FALSE, val |-> val]
 ExtLists == {<<>>, <<X("1.3.6.1.5.5.7.48.1.2", <<4, 2, 1, 2>>)>>,
              <<X("1.3.6.1.4.1.99999.3", <<5, 0>>), X("1.3.6.1.5.5.7.48.1.6", <<48, 0>>)>>}
@@ -94,25 +53,32 @@ Templates ==
 
 RoundTripCases ==
   SetToSeq({[t |-> t, sc |-> sc, kt |-> kt, verdict |-> ScVerdict(sc),
-             want |-> Expected(t, sc.responder, sc.embedded # "none")] :
+             want |-> Expected(t, SubjectOf(sc.responder), sc.embedded # "none")] :
               t \in Templates, sc \in {Direct1, Delegated}, kt \in KeyTypePairs})
 
 ----------------------------------------------------------------------------
 (* clause (3): faults on the two accepted kinds of response *)
 FaultSeq ==
   << [kind |-> "none"], [kind |-> "tbs"], [kind |-> "sig"], [kind |-> "alg"], [kind |-> "alg_params"],
-     [kind |-> "wrapper"], [kind |-> "cert_tbs"], [kind |-> "cert_sig"], [kind |-> "cert_alg"],
-     [kind |-> "cert_alg_params"], [kind |-> "drop"] >>
+     [kind |-> "status"], [kind |-> "resptype"], [kind |-> "headers"],
+     [kind |-> "cert_tbs"], [kind |-> "cert_sig"], [kind |-> "cert_alg"], [kind |-> "drop"] >>
 SwapIds == <<"R2", "Ro", "Rf", "Rs", "Rx", "I">>
 
+\* the response that is tampered with is built from this template; where the verdict is
+\* "open" or "accept" an accepted response must still carry exactly these fields
+FaultTemplate == [status |-> "revoked", reason |-> 1, serial |-> <<1>> \o Rep(0, 7) \o <<1>>, ihash |-> "sha256",
+                  thisUpdate |-> 86400, nextUpdate |-> 172800, revokedAt |-> 3600, exts |-> <<>>]
+
 FaultCase(sc, kt, f, name) ==
-  [sc |-> sc, kt |-> kt, fault |-> name,
+  [sc |-> sc, kt |-> kt, fault |-> name, t |-> FaultTemplate,
+   want |-> Expected(FaultTemplate, SubjectOf(sc.responder), sc.embedded # "none"),
    verdict |-> FaultVerdict(Resp(sc), f, KeyOfCert(sc.verifier))]
 
 FaultCasesFor(sc, kt) ==
   LET fs == SelectSeq(FaultSeq, LAMBDA f : FaultApplies(Resp(sc), f)) IN
   [i \in 1..Len(fs) |-> FaultCase(sc, kt, fs[i], [kind |-> fs[i].kind, cert |-> "none"])]
-  \o (IF sc.embedded = "none" THEN <<>>
+  \o (IF sc.embedded = "none"
+      THEN << FaultCase(sc, kt, [kind |-> "reorder"], [kind |-> "reorder", cert |-> "none"]) >>
       ELSE [i \in 1..Len(SwapIds) |->
               FaultCase(sc, kt, [kind |-> "swap", cert |-> CertOf(SwapIds[i])],
                         [kind |-> "swap", cert |-> SwapIds[i]])])
@@ -129,7 +95,7 @@ FaultCases ==
 \* certificate by another proper certificate of the same responder key
 ASSUME \A i \in 1..Len(FaultCases) :
          LET c == FaultCases[i] IN
-         (c.fault.kind \notin {"none", "alg_params", "cert_alg_params"} /\ c.verdict # "reject")
+         (c.fault.kind \notin ({"none"} \cup VoidRegions) /\ c.verdict # "reject")
             => (c.fault.kind = "swap" /\ c.fault.cert = "R2")
 
 ----------------------------------------------------------------------------
@@ -144,8 +110,12 @@ FSerials == {<<1>>, <<255>>, <<1>> \o Rep(0, 7) \o <<1>>}      \* 1, -1, 2^64+1
 Singles  == {[serial |-> s, mark |-> m] : s \in FSerials, m \in {1, 2}}
 MaxSingles == IF Deep THEN 4 ELSE 3
 SingleLists == UNION {[1..k -> Singles] : k \in 1..MaxSingles}
+\* the issuer key type matters only for the signature check: all key types for the short
+\* lists, P-256 for the long ones
 ForCertCases ==
-  SetToSeq({[singles |-> l, q |-> s, idx |-> ForCert(l, s)] : l \in SingleLists, s \in FSerials \cup {<<2>>}})
+  SetToSeq(UNION {{[singles |-> l, q |-> s, idx |-> ForCert(l, s), kt |-> kt] :
+                     s \in FSerials \cup {<<2>>},
+                     kt \in (IF Len(l) <= 2 THEN KeyTypePairs ELSE {<<"P", "P">>})} : l \in SingleLists})
 
 ASSUME ndJsonSerialize("ocsp_roundtrip.ndjson", RoundTripCases)
 ASSUME ndJsonSerialize("ocsp_accept.ndjson", AcceptCases)
